@@ -1,8 +1,28 @@
+/-
+C01 — property theorems (only statements that are obligations of the check).
+Helper lemmas live in OFV/Proofs.  Every theorem is audited with `#print axioms`.
+-/
 import OFV.Model.Program
 import OFV.Spec.Expr
+import OFV.Proofs.Bits
 
 namespace OFV.C01
+open OFV OFV.Spec OFV.Generated
 
-theorem placeholder : (1 : Nat) = 1 := rfl
+/-- The product table extracted from `qubit_operator.py` on this run is the Pauli
+algebra of the Spec: for all qubits `j` and all basis states `s`,
+`P_a (P_b |s⟩) = i^k P_r |s⟩` where `(i^k, r) = _PAULI_OPERATOR_PRODUCTS[(a, b)]`. -/
+theorem pauliTable_sound (a b : Nat) (ha : a < 4) (hb : b < 4) (j s : Nat) :
+    let kb := actP j b s
+    let ka := actP j a kb.2
+    let pr := pauliProdK a b
+    let kr := actP j pr.2 s
+    ka.2 = kr.2 ∧ (kb.1 + ka.1) % 4 = (pr.1 + kr.1) % 4 := by
+  have h1 := xflip_xflip s j
+  have h2 := testBit_xflip s j
+  have : a = 0 ∨ a = 1 ∨ a = 2 ∨ a = 3 := by omega
+  have : b = 0 ∨ b = 1 ∨ b = 2 ∨ b = 3 := by omega
+  rcases ‹a = 0 ∨ _› with rfl | rfl | rfl | rfl <;> rcases ‹b = 0 ∨ _› with rfl | rfl | rfl | rfl <;>
+    cases h : s.testBit j <;> simp [actP, pauliProdK, h, h1, h2]
 
 end OFV.C01
